@@ -1508,8 +1508,10 @@ fn nesting_cases(tier: Tier, full: &Arc<Base>, fea: &Arc<Base>, out: &mut Vec<Ca
             ("fea-class", format!("@c = {}a{};\n", "[".repeat(n), "]".repeat(n))),
             ("fea-class-unclosed", format!("@c = {}a;\n", "[".repeat(n))),
             ("fea-parens", format!("feature liga {{ sub a by {}b{}; }} liga;\n", "(".repeat(n), ")".repeat(n))),
-            ("fea-braces", format!("{}\n", "feature liga { ".repeat(n))),
-            ("fea-lookup-blocks", format!("feature liga {{ {} sub a by b; {} }} liga;\n", (0..n.min(3000)).map(|i| format!("lookup l{i} {{")).collect::<String>(), (0..n.min(3000)).rev().map(|i| format!("}} l{i};")).collect::<String>())),
+            // error recovery costs about 0.1 ms of CPU per unclosed block (measured: linear, 11 s at
+            // 100 000), so the block constructs stop at 10 000 to stay far inside the CPU limit
+            ("fea-braces", format!("{}\n", "feature liga {\n".repeat(n.min(10_000)))),
+            ("fea-lookup-blocks", format!("feature liga {{ {} sub a by b; {} }} liga;\n", (0..n.min(10_000)).map(|i| format!("lookup l{i} {{\n")).collect::<String>(), (0..n.min(10_000)).rev().map(|i| format!("}} l{i};")).collect::<String>())),
             ("fea-angle", format!("feature kern {{ pos a {}1{}; }} kern;\n", "<".repeat(n), ">".repeat(n))),
         ] {
             add(nm, "features.fea", fea, vec![Patch::Set("font.ufo/features.fea".into(), text.into_bytes())], format!("features.fea with {n} nested {nm}"));
@@ -1798,6 +1800,13 @@ fn main() {
         );
     }
     let nontrivial: u64 = felt.values().map(|f| f.0).sum();
+    let mut by_fault: BTreeMap<String, BTreeMap<String, u64>> = BTreeMap::new();
+    for c in cases.iter().filter(|c| c.class != "baseline") {
+        // structural faults carry the file kind after a colon; count per fault proper
+        let f = if c.class == "structural" { c.fault.split(':').next().unwrap_or("").split('=').next().unwrap_or("").to_string() } else { c.fault.clone() };
+        *by_fault.entry(c.class.into()).or_default().entry(f).or_default() += 1;
+    }
+    rep.set("cases_by_class_and_fault", json!(by_fault));
     rep.set("font_oracle", if USES_OTREF { "basic_sanity + otref::check_font" } else { "basic_sanity only (built without feature ev-ref)" });
     rep.set("evaluations", evaluations + (rerun.len() + second.len()) as u64);
     rep.set("cases_generated", cases.len());
